@@ -92,8 +92,7 @@ Proof.
     split; [reflexivity|]. split. { unfold h', b. apply nth_error_app_last. }
     split. { lia. }
     split. { rewrite skipn_O, firstn_all. apply reps3_app; auto. apply reps3_app; auto. }
-    right. split. { left. auto. } split; auto. split; auto. split; auto.
-    rewrite skipn_all. constructor.
+    right. split. { left. auto. } split; auto.
   - constructor; auto. intro Hc. apply Hlt in Hc. unfold b in Hc. lia.
   - apply post_intro.
     + unfold h'. rewrite app_length. simpl. lia.
@@ -109,7 +108,7 @@ Qed.
 (* the same, written in place over the window M of an allocated array *)
 Lemma splice_inplace_g : forall h ps a jsA (EA : list hval) fpsA (M : list hval) ju us fu jsC EC fpsC N FP,
   alloc_wf ps ->
-  nth_error h a = Some (OArr (EA ++ M ++ EC ++ N)) -> In (PArr a 0) ps -> Forall (eq HNull) N ->
+  nth_error h a = Some (OArr (EA ++ M ++ EC ++ N)) -> In (PArr a 0) ps ->
   reps3 (orep h ps) jsA EA fpsA -> reps3 (orep h ps) ju us fu -> reps3 (orep h ps) jsC EC fpsC ->
   length us = length M ->
   NoDup (a :: concat (fpsA ++ fu ++ fpsC)) ->
@@ -120,7 +119,7 @@ Lemma splice_inplace_g : forall h ps a jsA (EA : list hval) fpsA (M : list hval)
   orep h' ps (JArr (jsA ++ ju ++ jsC)) (HArr a 0 (length (EA ++ us ++ EC)) (length cells')) fp' /\
   NoDup fp' /\ post h ps FP h' ps fp'.
 Proof.
-  intros h ps a jsA EA fpsA M ju us fu jsC EC fpsC N FP Hwf Hn Hp Hj HA Hu HC Hus ND HFP HaFP cells' h' fp'.
+  intros h ps a jsA EA fpsA M ju us fu jsC EC fpsC N FP Hwf Hn Hp HA Hu HC Hus ND HFP HaFP cells' h' fp'.
   pose proof (nth_error_lt _ _ _ Hn) as Ha.
   assert (Hanew : ~ In a (concat (fpsA ++ fu ++ fpsC))) by (inversion ND; auto).
   assert (Hother : forall a0, a0 <> a -> nth_error h' a0 = nth_error h a0).
@@ -144,9 +143,7 @@ Proof.
       apply reps3_app. { apply Hmono; [exact HA | intros f Hf; rewrite in_app_iff; auto]. }
       apply reps3_app. { apply Hmono; [exact Hu | intros f Hf; rewrite !in_app_iff; auto]. }
       apply Hmono; [exact HC | intros f Hf; rewrite !in_app_iff; auto].
-    + right. split; auto. split; auto. split; auto. split; auto.
-      replace cells' with ((EA ++ us ++ EC) ++ N) by (unfold cells'; rewrite <- !app_assoc; auto).
-      rewrite skipn_app_exact by auto. auto.
+    + right. split; auto.
   - auto.
   - apply post_intro.
     + unfold h'. rewrite set_list_length. auto.
@@ -175,11 +172,11 @@ Lemma update_idx_arr_gen : forall cfg h A sub i r n, is_arr sub ->
    if (j <? 0)%Z then (if h_is_empty n then Some (h, A, norm_nil sub) else None)
    else if (j <? len)%Z then
      match update cfg h A (nth (Z.to_nat j) (elems h sub) HNull) r n with
-     | None => None | Some (h1, A1, u) => arr_write h1 A1 sub (Z.to_nat j) u end
+     | None => None | Some (h1, A1, u) => arr_write cfg h1 A1 sub (Z.to_nat j) u end
    else if h_is_empty n then Some (h, A, norm_nil sub)
    else if (max_index <=? i)%Z then None
    else match update cfg h A HNull r n with
-        | None => None | Some (h1, A1, u) => arr_write h1 A1 sub (Z.to_nat i) u end).
+        | None => None | Some (h1, A1, u) => arr_write cfg h1 A1 sub (Z.to_nat i) u end).
 Proof. intros. rewrite update_idx_eq. destruct sub; try contradiction; reflexivity. Qed.
 
 (* ---- the recursive call on the window, first component an index ----
@@ -249,7 +246,7 @@ Proof.
     { intros a0 Ha0. eapply (orep_fp _ _ _ _ _ Hx); eauto. }
     apply orep_arr in R1 as (b & off & len & cap & cells & fw & Hw & Hnb & Hlb & Hcb & Hcaseb).
     inversion Hw; subst b off len cap. clear Hw.
-    destruct Hcaseb as [(Hna & _) | (_ & _ & _ & _ & Hfpb)].
+    destruct Hcaseb as [(Hna & _) | (_ & _ & _ & Hfpb)].
     { exfalso. apply Hna. left. exists 0. left. auto. }
     inversion Hfpb as [Hfw]. rewrite Hfw in *.
     do 5 eexists. split; [reflexivity|]. split; [reflexivity|].
@@ -266,7 +263,7 @@ Proof.
     orep h ps jx x (nth k fpsW []) ->
     orep h1 ps1 ju u fu -> NoDup fu -> post h ps (nth k fpsW []) h1 ps1 fu ->
     exists jsW' h2 ps2 w fw,
-      JArr (set_nth jsW k ju) = JArr jsW' /\ arr_write h1 (Some ps1) sub k u = Some (h2, Some ps2, w) /\
+      JArr (set_nth jsW k ju) = JArr jsW' /\ arr_write cfg h1 (Some ps1) sub k u = Some (h2, Some ps2, w) /\
       is_arr w /\ hlen w = length (elems h2 w) /\ reps3 (orep h2 ps2) jsW' (elems h2 w) fw /\ NoDup (concat fw) /\
       post h ps (concat fpsW) h2 ps2 (concat fw)).
   { intros k jx x h1 ps1 ju u fu Hk Hx Hu NDu Hpost.
@@ -402,7 +399,7 @@ Proof.
     eapply post_trans; eauto. }
   unfold slice_write.
   assert (Huarr : match u with HArr _ _ _ _ | HNilArr => True | _ => False end) by (destruct u; auto).
-  destruct (node_alloc_cases _ _ _ _ _ _ _ Hnode) as [(Ha & a & len & cells & -> & Hna & Hl & HE & Hp & Hjk & Hfp) | Ha].
+  destruct (node_alloc_cases _ _ _ _ _ _ _ Hnode) as [(Ha & a & len & cells & -> & Hna & Hl & HE & Hp & Hfp) | Ha].
   - (* v allocated *)
     pose proof (nth_error_lt _ _ _ Hna) as Halt.
     assert (Hafps : ~ In a (concat fps)) by (subst fp; inversion ND; auto).
@@ -430,7 +427,7 @@ Proof.
         - apply Hafps. auto. }
       rewrite Hcells in Hna1.
       destruct (splice_inplace_g h1 ps1 a jsA EA fpsA M jsW' us fu jsC EC fpsC N (a :: concat (fpsA ++ fu ++ fpsC))
-                  P6 Hna1 (P3 _ Hp) Hjk HA1 Hu HC1 ltac:(lia) NDa ltac:(intros; right; auto) ltac:(left; auto))
+                  P6 Hna1 (P3 _ Hp) HA1 Hu HC1 ltac:(lia) NDa ltac:(intros; right; auto) ltac:(left; auto))
         as (R1 & R2 & R3).
       destruct u as [| | | | | |bu ou lu cu|]; try contradiction.
       * rewrite Q, Hal1. cbn [andb]. fold us. rewrite Hw.
@@ -503,9 +500,10 @@ Proof.
   rewrite skipn_add. f_equal. lia.
 Qed.
 
-Lemma sound_slice_idx : forall cfg s e i r, three_index cfg = true -> sound_at cfg r -> sound_at cfg (PS s e :: PI i :: r).
+Lemma sound_slice_idx : forall cfg s e i r, three_index cfg = true -> clear_exposed cfg = true ->
+  sound_at cfg r -> sound_at cfg (PS s e :: PI i :: r).
 Proof.
-  intros cfg s e i r H3 IH h ps v j fp n jn Hwf Hr ND Hn.
+  intros cfg s e i r H3 Hce IH h ps v j fp n jn Hwf Hr ND Hn.
   rewrite update_slice_eq. rewrite H3.
   pose proof (orep_is_empty _ _ _ _ _ Hn) as Hemp.
   assert (Hmain : forall js E fps, arr_node h ps js v E fps fp -> elems h v = E -> hlen v = length js ->
@@ -589,7 +587,7 @@ Proof.
         - unfold EW. simpl. destruct (en - st); destruct st; auto.
         - assert (Hna1 : nth_error h1 a = Some (OArr cells)).
           { rewrite Hag; auto. eapply nth_error_lt; eauto. intro Hc. apply HinW in Hc.
-            destruct Hcase as [(Hnaa & _) | (_ & _ & _ & _ & Hfp)].
+            destruct Hcase as [(Hnaa & _) | (_ & _ & _ & Hfp)].
             - apply (reps3_concat_fp _ _ _ _ _ _ Hrep) in Hc. tauto.
             - subst fp. inversion ND; auto. }
           cbn [reslice elems]. rewrite (cells_of_nth _ _ _ Hna1).
@@ -614,7 +612,7 @@ Proof.
       destruct Hw as (jsW' & h1 & ps1 & u & fu & -> & -> & Hisu & Hlu & Hru & NDu & Hpost).
       eapply slice_finish; eauto. }
     (* case A: the window starts at cell 0 of an allocated array and the index lies inside it *)
-    destruct (node_alloc_cases _ _ _ _ _ _ _ Hnode) as [(Ha & a & len & cells & Hv & Hna & Hl & HE & Hp & Hjk & Hfp) | Ha].
+    destruct (node_alloc_cases _ _ _ _ _ _ _ Hnode) as [(Ha & a & len & cells & Hv & Hna & Hl & HE & Hp & Hfp) | Ha].
     - subst v. pose proof (nth_error_lt _ _ _ Hna) as Halt.
       assert (HlE : length E = len) by (rewrite HE, firstn_length; lia).
       assert (Hafps : ~ In a (concat fps)) by (subst fp; inversion ND; auto).
@@ -648,15 +646,15 @@ Proof.
         destruct (Path.update (nth k js JNull) r jn) as [ju|]; [|rewrite IHc; auto].
         destruct IHc as (h1 & ps1 & u & fu & -> & Hu & NDu & Hpost).
         assert (Hnode' : arr_node h ps js (HArr a 0 len (length cells)) E fps fp).
-        { right. exists a, 0, len, (length cells), cells. subst fp. rewrite skipn_O. repeat split; auto. right. auto 6. }
-        destruct (arr_step h ps js _ E fps fp k _ _ h1 ps1 ju u fu Hwf Hnode' ND Hx Hu NDu Hpost)
+        { right. exists a, 0, len, (length cells), cells. subst fp. rewrite skipn_O. repeat split; auto; try (right; auto 6). }
+        destruct (arr_step cfg Hce h ps js _ E fps fp k _ _ h1 ps1 ju u fu Hwf Hnode' ND Hx Hu NDu Hpost)
           as (h' & ps' & w & fp' & Hw & Hr' & ND' & Hpost').
         exists h', ps', w, fp'. split; [|split; [|split]]; auto.
         * (* the window is written in place, the splice copies the window onto itself *)
           pose proof Hpost as (P1 & P2 & P3 & P4 & P5 & P6 & P7).
           assert (Hna1 : nth_error h1 a = Some (OArr cells)).
           { rewrite P2; auto. intro Hc. apply Hafps. eapply nth_in_concat; eauto. }
-          unfold arr_write in Hw |- *. cbn [hlen hcap] in *.
+          unfold arr_write, clear_cells in Hw |- *. cbn [hlen hcap] in *.
           assert (Hal : allocated (Some ps1) (HArr a 0 en en) = true) by (apply allocated_arr; auto).
           assert (Hal' : allocated (Some ps1) (HArr a 0 len (length cells)) = true) by (apply allocated_arr; auto).
           rewrite Hal. rewrite Hal' in Hw.
@@ -664,6 +662,7 @@ Proof.
           replace (Nat.ltb k (length cells)) with true in Hw by (symmetry; apply Nat.ltb_lt; lia).
           replace (Nat.leb en k) with false by (symmetry; apply Nat.leb_gt; lia).
           replace (Nat.leb len k) with false in Hw by (symmetry; apply Nat.leb_gt; lia).
+          rewrite andb_false_r in Hw |- *.
           unfold slice_write. cbn [hlen]. rewrite Nat.sub_0_r, Nat.eqb_refl.
           set (h2 := write_cell h1 a (0 + k) u) in *.
           assert (Hal2 : allocated (Some ps1) (HArr a 0 len (length cells)) = true) by auto.
@@ -717,12 +716,12 @@ Proof.
 Qed.
 
 (* ---- update is sound for every path in which no slice is directly followed by another slice ---- *)
-Theorem update_sound_ok : forall cfg p, three_index cfg = true -> ok_path p -> sound_at cfg p.
+Theorem update_sound_ok : forall cfg p, three_index cfg = true -> clear_exposed cfg = true -> ok_path p -> sound_at cfg p.
 Proof.
-  intros cfg p H3. induction 1.
+  intros cfg p H3 Hce. induction 1.
   - apply sound_nil.
   - apply sound_slice_last.
   - apply sound_key. auto.
-  - apply sound_idx. auto.
+  - apply sound_idx; auto.
   - apply sound_slice_idx; auto.
 Qed.
